@@ -76,6 +76,9 @@ SCRIPTS['r'] = ('(declare-fun f (Int) Int)(declare-fun g (Int Int) Int)'
 MUTSETS = {
     'consts': ['Constants'],
     'late': ['SimplifySymbolNames', 'ReplaceByVariable'],
+    # mutators whose proposals are reorderings / renamings (nothing shrinks
+    # first): order-dependence shows
+    'sort': ['SortChildren', 'ReplaceByVariable', 'SimplifySymbolNames'],
     # a late (last-pass only) mutator together with main ones: successes in
     # the last pass, after which main-mutator candidates become acceptable
     'latemix': ['SimplifySymbolNames', 'SimplifyQuotedSymbols', 'EraseNode'],
